@@ -68,6 +68,25 @@ def sections_gir(rng, mask, k, dep=False):
                  '<parameter name="f" transfer-ownership="none" scope="call"><type name="Dep.Func" c:type="DepFunc"/></parameter></parameters></function>')
         L.append('<record name="DepUser" c:type="SecDepUser"><field name="t" writable="1"><type name="Dep.Thing" c:type="DepThing*"/></field>'
                  '<field name="l" writable="1"><type name="GLib.List" c:type="GList*"><type name="Dep.Thing"/></type></field></record>')
+    # index 0 is a valid closure/destroy/length index (user data, destroy notify or length first), -1 means none
+    L.append('<callback name="DataFirst" c:type="SecDataFirst"><return-value transfer-ownership="none"><type name="none" c:type="void"/></return-value>'
+             '<parameters><parameter name="user_data" transfer-ownership="none" nullable="1" closure="0"><type name="gpointer" c:type="gpointer"/></parameter>'
+             '<parameter name="x" transfer-ownership="none"><type name="gint" c:type="gint"/></parameter></parameters></callback>')
+    order = rng.choice([('data', 'cb', 'notify'), ('notify', 'cb', 'data'), ('cb', 'data', 'notify'), ('data', 'notify', 'cb'), ('notify', 'data', 'cb')])
+    ps = []
+    for nm in order:
+        if nm == 'cb':
+            ps.append('<parameter name="cb" transfer-ownership="none" scope="notified" closure="%d" destroy="%d"><type name="DataFirst" c:type="SecDataFirst"/></parameter>'
+                      % (order.index('data'), order.index('notify')))
+        elif nm == 'data':
+            ps.append('<parameter name="data" transfer-ownership="none" nullable="1"><type name="gpointer" c:type="gpointer"/></parameter>')
+        else:
+            ps.append('<parameter name="notify" transfer-ownership="none" scope="async"><type name="GLib.DestroyNotify" c:type="GDestroyNotify"/></parameter>')
+    L.append('<function name="zero_index" c:identifier="sec_zero_index"><return-value transfer-ownership="none"><type name="none" c:type="void"/></return-value>'
+             '<parameters>%s</parameters></function>' % ''.join(ps))
+    L.append('<function name="len_first" c:identifier="sec_len_first"><return-value transfer-ownership="none"><type name="none" c:type="void"/></return-value>'
+             '<parameters><parameter name="n" transfer-ownership="none"><type name="gint" c:type="gint"/></parameter>'
+             '<parameter name="v" transfer-ownership="none"><array length="0" zero-terminated="0" c:type="gint*"><type name="gint" c:type="gint"/></array></parameter></parameters></function>')
     nif = [0, 1, 2, 3][mask & 3] if mask & 1 else (2 if mask & 2 else 0)
     for i in range(3):
         L.append('<interface name="If%d" c:type="SecIf%d" glib:type-name="SecIf%d" glib:get-type="sec_if%d_get_type"/>' % (i, i, i, i))
